@@ -1376,7 +1376,7 @@ LOOP:
 							l.ctx = l.contexts[last]
 							l.contexts = l.contexts[:last]
 						}
-					case tokenIf, tokenFor, tokenSwitch, tokenSelect:
+					case tokenIf, tokenFor, tokenSwitch, tokenSelect, tokenRaw:
 						if len(l.contexts) > 0 {
 							l.contexts = append(l.contexts, l.ctx)
 						}
